@@ -5,7 +5,7 @@
    the correspondence run only; its panics on ill-formed octets are a recorded finding (partial). *)
 From Coq Require Import List NArith Bool Arith.
 Import ListNotations.
-Require Import V.Regex V.Abnf V.Parse V.ParseProofs V.Factor V.BridgePaths V.C02Bridge V.C02Proofs V.Auth V.AuthProofs V.C03Bridge V.Cmp V.PctWf V.C19Proofs V.C19Auth.
+Require Import V.Regex V.Abnf V.Parse V.ParseProofs V.Factor V.BridgePaths V.C02Bridge V.C02Proofs V.Auth V.AuthProofs V.C03Bridge V.Cmp V.PctWf V.C19Proofs V.C19Auth V.PathSpec V.PathGrammar V.PathGrammarInst.
 Local Open Scope nat_scope.
 
 Theorem C19_octets_total_partial : forall s,
@@ -74,6 +74,15 @@ Theorem C19_authority_views_IRI : forall s, L (iauthority I) s ->
   (exists h', dec (slice s (a_host (authority_parts s))) = Some h').
 Proof. intros s H. destruct (iri_authority_decomposition s H) as (a & Hv & Hd). exact (authority_views_decode I chk_ui_I chk_host_I s a Hv Hd). Qed.
 Print Assumptions C19_authority_views_IRI.
+
+(* and through the SEGMENT iterator: every segment of every path of either family (the '/'-split that the iterator
+   yields, C12) has a total octet view *)
+Theorem C19_path_segments_URI : forall v, L (ipath U) v -> Forall (fun sg => exists sg', dec sg = Some sg') (segs v).
+Proof. intros v H. eapply Forall_impl; [|exact (segs_of_path_U v H)]. intros sg Hs. exact (dec_total_component _ _ chk_seg_U Hs). Qed.
+Print Assumptions C19_path_segments_URI.
+Theorem C19_path_segments_IRI : forall v, L (ipath I) v -> Forall (fun sg => exists sg', dec sg = Some sg') (segs v).
+Proof. intros v H. eapply Forall_impl; [|exact (segs_of_path_I v H)]. intros sg Hs. exact (dec_total_component _ _ chk_seg_I Hs). Qed.
+Print Assumptions C19_path_segments_IRI.
 
 Example C19_example : dec [97;37;70;70;37;99;51;37;65;57]%N = Some [97;255;195;169]%N.   (* a%FF%c3%A9 *)
 Proof. vm_compute. reflexivity. Qed.
